@@ -157,6 +157,10 @@ fn gap_case(inp: &[u64]) -> Result<(), String> {
     for k in 0..1000usize { let p = (1usize << 33) + off2 + 3 * k; b.set(p, !zeros); sel.push(p); }
     let n = sel.len();
     let rs = [n0, n0 - 1, n0 + 1, n0 + 2, 0, n - 1, n0 / 2, n0 + 500];
+    // A-SELS over three upper blocks
+    if zeros { check_small_inv("SelectZeroSmall<2,9> (3 upper blocks)", &lean_debug(&SelectZeroSmall::<2, 9, _>::new(RankSmall::<2, 9, _>::new(b.clone()))), &sel, len)?; }
+    else { check_small_inv("SelectSmall<2,9> (3 upper blocks)", &lean_debug(&SelectSmall::<2, 9, _>::new(RankSmall::<2, 9, _>::new(b.clone()))), &sel, len)?;
+           check_small_inv("SelectSmall<1,11>::with_inv(0) (3 upper blocks)", &lean_debug(&SelectSmall::<1, 11, _>::with_inv(RankSmall::<1, 11, _>::new(b.clone()), 0)), &sel, len)?; }
     macro_rules! chk { ($name:expr, $s:expr) => {{ let s = $s; for &r in &rs { let g = s.select(r); if g != Some(sel[r]) { return Err(format!("{}: select({}) = {:?} expected {}", $name, r, g, sel[r])); } } }} }
     macro_rules! chkz { ($name:expr, $s:expr) => {{ let s = $s; for &r in &rs { let g = s.select_zero(r); if g != Some(sel[r]) { return Err(format!("{}: select_zero({}) = {:?} expected {}", $name, r, g, sel[r])); } } }} }
     if zeros {
@@ -314,6 +318,43 @@ fn check_select9_inv(dbg: &str, words: &[usize], len: usize) -> Result<(), Strin
     Ok(())
 }
 
+/// Debug rendering without the long lists (`bits: [..]`, `counts: [..]`): enough to read the selection arrays of structures over 2^33 bits
+struct LeanSink { buf: String, skipping: bool }
+impl std::fmt::Write for LeanSink {
+    fn write_str(&mut self, s: &str) -> std::fmt::Result {
+        if self.skipping { if let Some(k) = s.find(']') { self.skipping = false; self.buf.push_str(&s[k..]); } return Ok(()); }
+        self.buf.push_str(s);
+        if self.buf.ends_with(" bits: [") || self.buf.ends_with(" counts: [") { self.skipping = true; }
+        Ok(())
+    }
+}
+fn lean_debug<T: std::fmt::Debug>(x: &T) -> String { use std::fmt::Write; let mut k = LeanSink { buf: String::new(), skipping: false }; let _ = write!(k, "{:?}", x); k.buf }
+
+/// `inv_small()` of contracts/select_small.lookup.vc (assumption A-SELS) on the arrays of a real SelectSmall / SelectZeroSmall; `sel` = positions of
+/// the selected bits (ones, or zeros), `len` the length; the RankSmall part of the invariant is proved (unit rank_small) and not re-checked here
+fn check_small_inv(name: &str, dbg: &str, sel: &[usize], len: usize) -> Result<(), String> {
+    if sel.is_empty() { return Ok(()); }
+    let inv = dbg_list(dbg, "inventory")?; let begin = dbg_list(dbg, "inventory_begin")?; let upper = dbg_list(dbg, "upper_counts")?;
+    let l = dbg_num(dbg, "log2_ones_per_inventory")?;
+    let e = |msg: String| -> Result<(), String> { Err(format!("{}: A-SELS (inv_small of select_small.lookup) does not hold: {}", name, msg)) };
+    let ucl = upper.len();
+    if ucl != (len.div_ceil(64)).div_ceil(1 << 26) { return e(format!("{} upper counts for {} bits", ucl, len)); }
+    if !(l < 60 && begin.len() > ucl && begin[0] == 0) { return e(format!("l = {}, {} begins for {} upper blocks, first {}", l, begin.len(), ucl, begin.first().copied().unwrap_or(99))); }
+    let num = sel.len();
+    if !((inv.len() - 1) << l < num && num <= inv.len() << l) { return e(format!("{} entries for {} selected bits, l = {}", inv.len(), num, l)); }
+    for c in ucl..begin.len() { if begin[c] < inv.len() { return e(format!("sentinel {} = {} below the inventory length {}", c, begin[c], inv.len())); } }
+    for i in 0..inv.len() {
+        let p = sel[i << l];
+        if inv[i] != p % (1usize << 32) { return e(format!("entry {} = {} for position {}", i, inv[i], p)); }
+        let sb = p >> 32;
+        for c in 0..begin.len() {
+            if begin[c] <= i && c < ucl && !(c <= sb) { return e(format!("entry {} (upper block {}) at or after begin[{}] = {}", i, sb, c, begin[c])); }
+            if begin[c] > i && !(sb < c) { return e(format!("entry {} (upper block {}) before begin[{}] = {}", i, sb, c, begin[c])); }
+        }
+    }
+    Ok(())
+}
+
 /// input: as for select_all ([len, pushed_before_pops, density or pattern, seed])
 fn inv_case(inp: &[u64]) -> Result<(), String> {
     let (len, total, dens, seed) = (inp[0] as usize, (inp[1] as usize).max(inp[0] as usize), inp[2], inp[3]);
@@ -327,6 +368,14 @@ fn inv_case(inp: &[u64]) -> Result<(), String> {
     check_adapt_inv("SelectAdapt::with_inv(9,0)", &format!("{:?}", SelectAdapt::with_inv(nb(), 9, 0)), &words, len, false)?;
     check_adapt_inv("SelectAdapt::with_inv(12,3)", &format!("{:?}", SelectAdapt::with_inv(nb(), 12, 3)), &words, len, false)?;
     check_select9_inv(&format!("{:?}", Select9::new(Rank9::new(b.clone()))), &words, len)?;
+    { let ones: Vec<usize> = (0..len).filter(|&i| b[i]).collect(); let zeros: Vec<usize> = (0..len).filter(|&i| !b[i]).collect();
+      check_small_inv("SelectSmall<2,9>", &lean_debug(&SelectSmall::<2, 9, _>::new(RankSmall::<2, 9, _>::new(b.clone()))), &ones, len)?;
+      check_small_inv("SelectSmall<1,10>::with_inv(0)", &lean_debug(&SelectSmall::<1, 10, _>::with_inv(RankSmall::<1, 10, _>::new(b.clone()), 0)), &ones, len)?;
+      check_small_inv("SelectSmall<3,13>::with_inv(1)", &lean_debug(&SelectSmall::<3, 13, _>::with_inv(RankSmall::<3, 13, _>::new(b.clone()), 1)), &ones, len)?;
+      check_small_inv("SelectSmall<1,9>", &lean_debug(&SelectSmall::<1, 9, _>::new(RankSmall::<1, 9, _>::new(b.clone()))), &ones, len)?;
+      check_small_inv("SelectSmall<1,11>", &lean_debug(&SelectSmall::<1, 11, _>::new(RankSmall::<1, 11, _>::new(b.clone()))), &ones, len)?;
+      check_small_inv("SelectZeroSmall<2,9>", &lean_debug(&SelectZeroSmall::<2, 9, _>::new(RankSmall::<2, 9, _>::new(b.clone()))), &zeros, len)?;
+      check_small_inv("SelectZeroSmall<1,11>::with_inv(0)", &lean_debug(&SelectZeroSmall::<1, 11, _>::with_inv(RankSmall::<1, 11, _>::new(b.clone()), 0)), &zeros, len)?; }
     check_adapt_inv("SelectZeroAdapt(3)", &format!("{:?}", SelectZeroAdapt::new(nb(), 3)), &words, len, true)?;
     check_adapt_inv("SelectZeroAdapt::with_inv(4,1)", &format!("{:?}", SelectZeroAdapt::with_inv(nb(), 4, 1)), &words, len, true)?;
     check_adapt_inv("SelectZeroAdapt::with_inv(12,2)", &format!("{:?}", SelectZeroAdapt::with_inv(nb(), 12, 2)), &words, len, true)?;
